@@ -82,6 +82,11 @@ class ReadChecker:
             bw = self.bw
             if not bw:
                 return
+            if n >= 0 and self.pos >= self.F:
+                # sf_read_raw tests end-of-data before the alignment of the request
+                if ret != 0 or err != "0":
+                    self.bad(k, "sf_read_raw at end of data: ret=%d err=%s (want 0, no error)" % (ret, err), "eof")
+                return
             if n % bw != 0 or n < 0:
                 if ret != 0 or err == "0":
                     self.bad(k, "sf_read_raw with %d bytes (frame size %d) must return 0 with an error set: ret=%d err=%s" % (n, bw, ret, err), "invalid")
@@ -93,16 +98,18 @@ class ReadChecker:
                     return
             data = bytes.fromhex(kv.get("data", ""))[:max(ret, 0)]
             if ret > 0 and self.filebytes is not None:
-                if self.rawbase is None:
-                    j = self.filebytes.find(data) if len(data) >= 4 else -1
-                    if j >= 0 and j - self.pos * bw >= 0:
-                        self.rawbase = j - self.pos * bw
-                    elif len(data) >= 4:
-                        self.bad(k, "sf_read_raw delivered %d bytes that occur nowhere in the file" % ret, "data")
+                # the offset of frame 0 in the file is not known here: keep the set of offsets consistent with every raw read so far
+                cands, j = set(), self.filebytes.find(data)
+                while j >= 0 and len(cands) < 4096:
+                    if j - self.pos * bw >= 0:
+                        cands.add(j - self.pos * bw)
+                    j = self.filebytes.find(data, j + 1)
                 if self.rawbase is not None:
-                    a = self.rawbase + self.pos * bw
-                    if self.filebytes[a:a + ret] != data:
-                        self.bad(k, "sf_read_raw at frame %d delivered bytes that are not the file's bytes at offset %d" % (self.pos, a), "data")
+                    cands &= self.rawbase
+                if not cands:
+                    self.bad(k, "sf_read_raw at frame %d delivered %d bytes that are not the file's bytes at any offset consistent with the earlier raw reads" % (self.pos, ret), "data")
+                else:
+                    self.rawbase = cands
             if err != "0" and ret > 0:
                 self.bad(k, "successful sf_read_raw left error %s" % err, "count")
             self.pos += ret // bw
